@@ -21,18 +21,27 @@ EVNAMES = {'M': 'malloc', 'C': 'calloc', 'R': 'realloc', 'F': 'free', 'U': 'use-
 def build(variant='plain'):
     # the asan variant of vlib also enables UBSan, which stops at idioms the library relies on (unaligned hash loads,
     # shifts of negative values): only AddressSanitizer is wanted here
+    # and allocas are not instrumented: the interpreter implements BSTART/BEND by resetting the host stack pointer below
+    # its own alloca()s, the stale redzones of which ASan then reports as dynamic-stack-buffer-overflow (an artefact)
     # harness/c17_api.h is #included, not listed as a source: its hash goes into the flags so that an edit rebuilds
     hh = vlib.file_hash([os.path.join(vlib.VERIF, 'harness', 'c17_api.h')])
     impl = vlib.build_harness('c17_alloc', ['c17_alloc.c'], variant=variant, units=('mir', 'mir-gen', 'c2mir'),
-                              defs=['-fno-sanitize=undefined'] if variant == 'asan' else [],
+                              defs=['-fno-sanitize=undefined', '--param=asan-instrument-allocas=0'] if variant == 'asan' else [],
                               extra_flags=['-Wl,' + ','.join('--wrap=' + w for w in WRAP), '-DC17_API_H_HASH=0x' + hh[:8]])
     model = vlib.ocaml_build('c17', 'Extract_C17', ['c17x'], 'driver_c17.ml')
     return impl, model
 
 
-def run_script(impl, lines, timeout=300):
-    rc, out, err = vlib.sh([impl], input=('\n'.join(lines) + '\nend\n').encode(), timeout=timeout,
-                           env={'ASAN_OPTIONS': 'detect_leaks=0:handle_segv=0:allow_user_segv_handler=1:handle_abort=0'})
+# every run of the harness has its own time limit: the longest histories (the fixed ones) take a few seconds, under
+# ASan some tens of seconds; a child that is still running after the limit is killed and judged as a HANG (rc 124)
+RUN_LIMIT = 150
+SHRINK_LIMIT = 40
+
+
+def run_script(impl, lines, timeout=RUN_LIMIT):
+    # the harness ends itself at the limit (SIGALRM: trace flushed, rc 124); the kill 20 s later is the backstop
+    rc, out, err = vlib.sh([impl], input=('\n'.join(lines) + '\nend\n').encode(), timeout=timeout + 20,
+                           env={'C17_LIMIT': str(timeout), 'ASAN_OPTIONS': 'detect_leaks=0:handle_segv=0:allow_user_segv_handler=1:handle_abort=0'})
     return rc, out.split('\n'), err
 
 
@@ -144,9 +153,9 @@ def describe(impl, events, idx, steps):
     return sig, what, detail
 
 
-def check_script(impl, model, lines):
+def check_script(impl, model, lines, timeout=RUN_LIMIT):
     """-> list of (sig, what, detail, ctx, idx); status string"""
-    rc, out, err = run_script(impl, lines)
+    rc, out, err = run_script(impl, lines, timeout=timeout)
     traces, steps, results, notes = parse(out)
     if rc == 65:
         return [], 'not-error-free', traces, steps, results, notes
@@ -180,7 +189,14 @@ def check_script(impl, model, lines):
             elif not v.startswith('ACCEPT'):
                 raise vlib.BuildError('monitor said: ' + v)
         todo = nxt
-    if rc not in (0, 65):
+    if rc == 124:
+        # the harness did not come back within the limit: the step it was in is the last one announced
+        last = steps[-1][1][:40] if steps else ''
+        if not problems:
+            problems.append(('hang@' + (last.split()[0] if last else '?'),
+                             'the library did not return within %d s under the checking allocators (last step announced: %s)' % (timeout, last),
+                             dict(rc=rc, limit_seconds=timeout, steps_done=len(steps))))
+    elif rc not in (0, 65):
         crash = [n for n in notes if n.startswith('CRASH') or n.startswith('OOM')]
         last = steps[-1][1][:40] if steps else ''
         if not problems:
@@ -195,7 +211,9 @@ def shrink(impl, model, lines, sig):
         if not G.valid(sub):
             return False
         try:
-            probs, st, *_ = check_script(impl, model, sub)
+            # a candidate that hangs (e.g. a module text cut down to a declaration cycle) is not the failure looked for,
+            # unless the signature itself is a hang: short limit, its own signature
+            probs, st, *_ = check_script(impl, model, sub, timeout=RUN_LIMIT if sig.startswith('hang@') else SHRINK_LIMIT)
         except vlib.BuildError:
             return False
         return st == 'ok' and any(p[0] == sig for p in probs)
